@@ -35,6 +35,33 @@ def is_workspace_fn(P, path):
         (f.impl_trait is None or str(f.impl_trait).startswith(MEMBER_PREFIXES))
 
 
+def pools_call(ctx, fn):
+    """Where `fn` reads the pair's reserves: (owner Fn, bb, call value, Roots view) of the single `query_pools` call, made
+    by fn itself or by a private loop-free loader it calls (`let (pair_info, pools) = load_pair_and_pools(deps)?`), whose
+    values are read with the loader's parameters bound to the call site's arguments.  None when there is not exactly one."""
+    P = ctx.P
+    direct = [(b, P.val_call(fn, fn.body, b)) for b, p, fr, t in P.calls(fn) if ctx.N.is_fn(p, "query_pools")]
+    if len(direct) == 1:
+        return fn, direct[0][0], direct[0][1], ctx.R
+    if direct:
+        return None
+    hits = []
+    for b, p, fr, t in P.calls(fn):
+        if not is_workspace_fn(P, p):
+            continue
+        h = P.fn(p) or P.fn(generic_path(p))
+        if h is None or h.path == fn.path or h.body.back_edges() or (h.j.get("vis") or "Public").startswith("Public"):
+            continue
+        inner = [(hb, P.val_call(h, h.body, hb)) for hb, hp, hfr, ht in P.calls(h) if ctx.N.is_fn(hp, "query_pools")]
+        if not inner:
+            continue
+        if len(inner) != 1 or len([1 for c_, cb_ in P.callers(h.path) if c_.path == fn.path]) != 1:
+            return None
+        cv = P.val_call(fn, fn.body, b)
+        hits.append((h, inner[0][0], inner[0][1], ctx.R.with_params(h.path, cv[4])))
+    return hits[0] if len(hits) == 1 else None
+
+
 def arm_handlers(P, fn, region):
     """Workspace (non-trait) functions called inside `region` of fn: [(bb, path)]."""
     out = []
@@ -84,23 +111,32 @@ def descend_intermediate(P, disp, edge, region, h, callbb):
     (P._param_overrides, consulted by Roots), so provenance still reads in terms of the entry point's message."""
     depth = 0
     while depth < 2 and h is not None and h.body is not None:
-        if (h.j.get("vis") or "Public").startswith("Public") or common.single_call_site(P, h) is None:
+        # handlers of a contract crate are conventionally `pub fn`; the workspace is the whole program, so their callers are known
+        if (h.j.get("vis") or "Public").startswith("Public") and h.crate not in ("halo_pair", "halo_factory", "halo_router"):
             break
-        allb = set(range(len(h.body.blocks)))
-        hs2 = forwarded_handler(P, h, allb)
+        hu = h
+        if common.single_call_site(P, h) is None:
+            # a forwarder shared by the direct and the hook arm (`enter_route(deps, env, sender, operations, ..)`): each arm
+            # reads its own copy, whose parameters stand for that arm's arguments
+            sites = [(c, b) for c, b in P.callers(h.path) if "::tests::" not in c.path and "mock_querier" not in c.path]
+            if not (2 <= len(sites) <= 3) or any(f_.parent == h.path for f_ in P.fns.values() if f_.kind == "closure") or getattr(h, "clone_of", None):
+                break
+            hu = P.clone_fn(h, "%s:bb%d" % (getattr(disp, "clone_of", None) or disp.path, callbb), site=(disp, callbb))
+        allb = set(range(len(hu.body.blocks)))
+        hs2 = forwarded_handler(P, hu, allb)
         if len({f.path for _, f in hs2}) != 1 or len(hs2) != 1:
             break
         g = hs2[0][1]
-        if g is None or g.body is None or not any(re.match(r"^cosmwasm_std::(\S*::)?DepsMut", g.body.locals[i]["ty"]) for i in range(1, g.body.arg_count + 1)):
+        if g is None or g.body is None or not any(re.match(r"^cosmwasm_std::(\S*::)?Deps(Mut)?\b", g.body.locals[i]["ty"]) for i in range(1, g.body.arg_count + 1)):
             break
-        if any(not (cls == "err" or (isinstance(cls, tuple) and cls[0] == "forward")) for (b, i, cls, v) in common.exit_sites(P, h)):
+        if any(not (cls == "err" or (isinstance(cls, tuple) and cls[0] == "forward")) for (b, i, cls, v) in common.exit_sites(P, hu)):
             break
         cv = P.val_call(disp, disp.body, callbb)
         if not hasattr(P, "_param_overrides"):
             P._param_overrides = {}
-        P._param_overrides[h.path] = tuple(cv[4])
-        common.OVERRIDDEN[h.path] = (P, tuple(cv[4]))
-        disp, edge, region, callbb, h = h, None, allb, hs2[0][0], g
+        P._param_overrides[hu.path] = tuple(cv[4])
+        common.OVERRIDDEN[hu.path] = (P, tuple(cv[4]))
+        disp, edge, region, callbb, h = hu, None, allb, hs2[0][0], g
         depth += 1
     return disp, edge, region, h, callbb
 
@@ -175,7 +211,38 @@ def arm_handler(P, q, region, what):
             hs = fed
     if len(hs) != 1:
         raise AnchorMissing("%s calls %d workspace functions" % (what, len(hs)))
-    return hs[0]
+    b, g = hs[0]
+    for _ in range(2):
+        g2 = _thin_query_wrapper(P, g)
+        if g2 is None:
+            break
+        g = g2
+    return b, g
+
+
+_WRAP_OK = re.compile(r"(::to_binary$|::to_json_binary$|ops::Try>?::branch$|FromResidual.*::from_residual$|::clone$|::deref$|convert::(Into|From)(<.*>)?>?::(into|from)$|::as_ref$)")
+
+
+def _thin_query_wrapper(P, g):
+    """`fn query_simulation(deps, offered, route) -> StdResult<Binary> { let s = simulate_swap_operations(deps, offered, route)?;
+    to_binary(&s) }`: a private one-call-site wrapper that hands its own parameters, position by position, to one workspace
+    function and only encodes / propagates the result.  Returns that function (the arm's real handler) or None."""
+    if g is None or g.body is None or g.body.back_edges() or common.single_call_site(P, g) is None or len(g.body.blocks) > 30:
+        return None
+    inner = []
+    for b, p, fr, t in P.calls(g):
+        if is_workspace_fn(P, p):
+            inner.append((b, P.fn(p) or P.fn(generic_path(p))))
+        elif not p or not _WRAP_OK.search(generic_path(p)):
+            return None
+    if len(inner) != 1 or inner[0][1] is None or inner[0][1].body is None or inner[0][1].body.arg_count != g.body.arg_count:
+        return None
+    cv = P.val_call(g, g.body, inner[0][0])
+    R = common.Roots(P)
+    for i, a in enumerate(cv[4]):
+        if set(R.roots(a)) != {"P:%s#%d" % (g.path, i)}:
+            return None
+    return inner[0][1]
 
 
 def passed_roots(ctx, cv, idx, caller, cidx):
